@@ -22,6 +22,7 @@ ENC = {
     "int_m1": dict(classes=[10, 20, 30], missing=-1, dtype=int),
     "str_nan": dict(classes=["a", "b", "c"], missing="nan", dtype="<U3"),
     "obj_none": dict(classes=["a", "b", "c"], missing=None, dtype=object),
+    "objnum_none": dict(classes=[10, 20, 30], missing=None, dtype=object),     # numbers in an object array, sentinel None
 }
 
 
@@ -536,7 +537,8 @@ HARNESSES = [
     dual_harness("classifiers_under_encodings", sc_classifiers,
                  lambda tier: [dict(kind=k, n=2, K=K, encs=e, cost=cm) for k in ("sklearn", "sklearn_unfittable", "mixture") for K in (2, 3)
                                for cm in (False, True) for e in ([PAIRS_Q[0]] if tier == "quick" else PAIRS_Q)
-                               if tier != "quick" or (K, cm) in ((2, False), (3, True))],
+                               if tier != "quick" or (K, cm) in ((2, False), (3, True))]
+                 + [dict(kind="sklearn", n=2, K=2, encs=["float_nan", "objnum_none"], cost=False)],
                  ["skactiveml.classifier._wrapper:SklearnClassifier._fit", "skactiveml.classifier._wrapper:SklearnClassifier.predict_proba",
                   "skactiveml.classifier._wrapper:SklearnClassifier.predict",
                   "skactiveml.classifier._mixture_model_classifier:MixtureModelClassifier.fit",
